@@ -62,7 +62,7 @@ func verifMembers(w Bit64, reverse bool) []int {
 func verifIter[T verifInt](call func(b Bit64, s []T, pos int, add T, n int) int, reverse bool) {
 	w := verifWord()
 	magic := symx.Int32("sparseMagic")
-	sparseMagic.Store(magic)
+	SetSparseMagic(magic)
 	pos := 2 * symx.Concrete(symx.Int("posHalf"), 0, 1)
 	n := verifCount()
 	add := T(symx.Int64("add"))
@@ -109,7 +109,7 @@ func VerifH_RIterAsI8()  { verifIter(func(b Bit64, s []int8, p int, a int8, n in
 // GetNAs* wrappers: first n members, nil when nothing was taken; n in [0, 66].
 func verifGetN[T verifInt](call func(b Bit64, n int) []T, reverse bool) {
 	w := verifWord()
-	sparseMagic.Store(symx.Int32("sparseMagic"))
+	SetSparseMagic(symx.Int32("sparseMagic"))
 	n := symx.Int("n")
 	hi := symx.Param("nHi", 66)
 	symx.Assume(n >= 0 && n <= hi) // negative n makes make() panic: precondition; n > Len+1 behaves as Len+1
